@@ -21,7 +21,10 @@ def build_scenarios(wd, proto, n, t, kinds, seed, limit=None, scheds=1, cross=Fa
     if "equiv" in kinds:
         cases += cat["equiv"]
     if "fault" in kinds:
-        fl = [c for c in cat["fault"] if alts is None or c["alt"] in alts]
+        # the count-overflow family (lenwrap<k>, lenmax, lenhalf) only on request (alts contains "len*")
+        lenfam = alts is not None and "len*" in alts
+        fl = [c for c in cat["fault"] if (c["alt"].startswith("len") and lenfam) or
+              (not c["alt"].startswith("len") and (alts is None or c["alt"] in alts))]
         if fieldwise:
             # one case per (message slot, field name, alteration): the first list position, a cheater and recipient
             # that rotate with the seed
